@@ -52,7 +52,7 @@ PROPS["C11"] = dict(
         "kernel models vs implementation (Init members, Forward, Reverse, SetScale, txif, tphif, DDatanhee, atanhxm1)": "32 ulp + 8 × the largest deviation of five runs of the "
                                    "model with hypot and log jiggled in the last bit by a hash (last-bit conditioning probe; nothing fitted); _drhomax on the implementation's own members; "
                                    "Reverse k additionally |ψ| ulp (k is an exponential of the isometric latitude); lat/lon 64 ulp of 90°/180°; Reverse and tphif/tauf are compared only where the "
-                                   "coded Newton loop stops by its own tolerance (the silent cap of 5 iterations is finding F84); not run inside the classes of the open findings on Init",
+                                   "coded Newton loop stops by its own tolerance (the cap, 50 iterations since the repair 707b423 of finding F88, is silent); not run inside the classes of the open findings on Init",
         "model vs implementation": "polar stereographic 64·max(1, 1/(1−e²)) ulp of ρ (+ the model's own sensitivity to 8 ulp of hypot in Reverse), taupf 32·max(1, 1/(1−e²)) ulp, tauf 64·max(1, 1/(1−e²)) ulp + sensitivity, divided "
                                    "differences 32 ulp, hemisphere wrapper and constructor domains exact",
     },
@@ -63,7 +63,7 @@ PROPS["C11"] = dict(
                 "Cone kernels as coded: LCC — the coded x, y are ρ sin θ, ρ0 − ρ cos θ (cone_xy_closed); Forward's drho (both branches) is (scale/n)(e^{−nψ} − e^{−nψ0}) = ρ − ρ0 for "
                 "ρ = a F tⁿ (lcc_drho_closed); k = k0 (scβ e^{−nψ})/(scβ0 e^{−nψ0}) (lcc_k_closed); with Init's _k0 the scale on the first standard parallel is k1 "
                 "(lcc_scale_on_parallel1); the divided-difference cone constant num/den of the two-parallel Init is Snyder's (ln m1 − ln m2)/(ln t1 − ln t2) for oblate (lcc_n_snyder), prolate and "
-                "spherical ellipsoids (lcc_n_closed, lcc_n_snyder_prolate — the latter under e² sinφ1 sinφ2 > −1, whose failure is finding F80); NEW the careful evaluation of 1 − n for n ≥ 1/4 "
+                "spherical ellipsoids (lcc_n_closed, lcc_n_snyder_prolate — for every pair of parallels since the repair 36a144d of finding F84); NEW the careful evaluation of 1 − n for n ≥ 1/4 "
                 "(all 60 lines: s, t, a, Dlog1p, tbm, tam via dbet, dχ, D(ν2, ν1) in both arms) is exactly 1 − n (lcc_one_minus_n, given that Deatanhe is a divided difference on the three pairs used), "
                 "hence nc = √(max 0 (1 − n)(1 + n)) (lcc_nc_careful_oblate, lcc_nc_careful_prolate incl. the sphere); "
                 "Reverse recovers drho (cone_reverse_drho), dpsi (lcc_reverse_dpsi) and tan χ in both branches 2n ≤ 1 / 2n > 1 (lcc_reverse_tchiA/B); Reverse∘Forward = id on the kernel "
@@ -87,9 +87,9 @@ PROPS["C11"] = dict(
                 "LambertConformalConic::Init (all 13 members, every branch incl. the careful 1 − n evaluation), Forward, Reverse, SetScale; AlbersEqualArea::Init (10 members, the Newton "
                 "loop), Forward, Reverse, SetScale, txif, tphif, DDatanhee (all three evaluation paths), atanhxm1, polar stereographic, tauf/taupf, the divided differences — now on the eccentric "
                 "strata as well. Partial — not theorems: Deatanhe/Datanhee as divided differences are hypotheses of the Init theorems where the ellipsoid is not fixed (instantiated for oblate, "
-                "prolate-in-range and spherical); the longitude recovery through atan2 in the kernel Reverse∘Forward theorems; convergence of the Newton iterations (tauf, tphif, Init — F82, F84 show "
-                "they need not converge); du as the derivative of u; the limits of DDatanhee1 for prolate ellipsoids and of DDatanhee2 (only: its coefficients are those of the Taylor series of the "
-                "limit); monotonicity of the isometric latitude (ψ1 ≠ ψ2 is a hypothesis); floating-point error bounds (open findings F80–F85 are floating-point/branch defects outside the real-number theorems' "
+                "prolate (every pair since 36a144d) and spherical); the longitude recovery through atan2 in the kernel Reverse∘Forward theorems; convergence of the Newton iterations (tauf, tphif, Init — the repaired findings F86, F88 showed "
+                "the unrepaired loops need not converge; the safeguarded Init loop is modelled with its backtracking); du as the derivative of u; the limits of DDatanhee1 for prolate ellipsoids and of DDatanhee2 (only: its coefficients are those of the Taylor series of the "
+                "limit); monotonicity of the isometric latitude (ψ1 ≠ ψ2 is a hypothesis); floating-point error bounds (findings F84–F89, F93 are floating-point/branch defects outside the real-number theorems' "
                 "hypotheses). These stay covered by the binary128 closed-form oracle and the other oracles on the implementation."),
     level_note=("hand-written polymorphic model (RealLike) of PolarStereographic.cpp, Math::taupf/tauf/eatanhe, the divided-difference helpers of LambertConformalConic.hpp / AlbersEqualArea.hpp, the "
                 "_sign bookkeeping, the constructor checks and the cone kernels (Init, Forward, Reverse, SetScale, the Albers series); LatFix, tand, sincosd, atand, atan2d, AngNormalize are kernels (C16); "
@@ -102,5 +102,5 @@ PROPS["C11"] = dict(
                  "libm kernels (sinh, asinh, atanh, atan, exp, log, hypot) agree between Lean's Float and C++ to a few ulp",
                  "Snyder's formulas are the definitions of the projections; the origin of a two-parallel cone is the latitude of minimum (azimuthal) scale, as the headers state",
                  "outside terrestrial flattening the documented accuracy figures are scaled by kappa(f) = max(1, b/a, 1/(1−e²)) and by the computed condition number of the problem; "
-                 "what exceeds that is reported (open findings F80–F85, each with a class decided from the configuration alone)"],
+                 "what exceeds that is reported (open findings F87, F89, F93, each with a class decided from the configuration alone)"],
 )
